@@ -2,9 +2,9 @@
 """Pretty-print C11 cases/traces: c11_decode.py CASES TRACES [index]"""
 import sys
 NP=3
-OPS=["Estab","ConnClosed","SubIn","SubOut","OpenFail","DialFail","HsIn","HsOut","Validate","Timer","CmdOpen","CmdClose","CmdForce","TaskDie","Release","KillChan","Gate"]
+OPS=["Estab","ConnClosed","SubIn","SubOut","OpenFail","DialFail","HsIn","HsOut","Validate","Timer","CmdOpen","CmdClose","CmdForce","TaskDie","Release","KillChan","Gate","Notify","NotifyDie","SleepAll","GrabSink","SendSync","SendAsync","SinkSync","SinkAsync","UserPoll"]
 EV=["Validate","Opened","Closed","OpenFailure","Notif"]
-CALL=["dial","open_substream","force_close"]
+CALL=["dial","open_substream","force_close","ret","wire"]
 def st(v):
     t=v[0]
     if t==0: return "-"
@@ -19,7 +19,34 @@ def st(v):
         return "Validating(%s,out=%s,in=%s)"%("out" if v[1] else "in",o,i)
     if t==7: return "Open"
     return str(v)
+def show_lazy(case,trace):
+    cap=case[2]>>3
+    print("LAZY cfg auto_accept=%d should_dial=%d dialable=%s cap=%d nops=%d"%(case[0],case[1],bin(case[2]&7),cap,case[3]))
+    ops=[case[4+3*i:7+3*i] for i in range(case[3])]
+    i=1
+    if trace[0]!=1: print("trace head",trace[:3]); return
+    for k,(kind,p,arg) in enumerate(ops):
+        if i>=len(trace): print("  (trace ended)"); break
+        s=trace[i]; i+=1
+        line="%3d %-10s p%d %d :"%(k,OPS[kind] if kind<len(OPS) else kind,p,arg)
+        if s==2: print(line,"STUCK"); break
+        n=trace[i]; i+=1
+        evs=[]
+        for _ in range(n):
+            e=trace[i:i+3]; i+=3
+            evs.append("%s(p%d,%d)"%(EV[e[0]],e[1],e[2]))
+        n=trace[i]; i+=1
+        calls=[]
+        for _ in range(n):
+            e=trace[i:i+3]; i+=3
+            calls.append("%s(p%d,%d)"%(CALL[e[0]],e[1],e[2]))
+        g=trace[i:i+6]; i+=6
+        q=trace[i]; pk=trace[i+1]; i+=2
+        print(line," ".join(evs),"|"," ".join(calls),"| gate(open,val)=%s q=%d%s"%(g,q," PARKED" if pk else ""))
+
 def show(case,trace):
+    if case[2]>>3:
+        return show_lazy(case,trace)
     print("cfg auto_accept=%d should_dial=%d dialable=%s nops=%d"%(case[0],case[1],bin(case[2]),case[3]))
     ops=[case[4+3*i:7+3*i] for i in range(case[3])]
     i=1
@@ -48,7 +75,8 @@ def show(case,trace):
         for _ in range(n):
             po.append(tuple(trace[i:i+2])); i+=2
         tasks=trace[i]; i+=1
-        print(line," ".join(evs),"|"," ".join(calls),"|"," ; ".join(sts),"| po=%s tasks=%d"%(po,tasks))
+        narm=trace[i]; i+=1
+        print(line," ".join(evs),"|"," ".join(calls),"|"," ; ".join(sts),"| po=%s tasks=%d armed=%d"%(po,tasks,narm))
 if __name__=="__main__":
     cs=[l for l in open(sys.argv[1]).read().splitlines()]
     ts=[l for l in open(sys.argv[2]).read().splitlines()]
